@@ -222,6 +222,8 @@ type member struct{ Name, Raw string }
 
 type TextCase struct {
 	Text string
+	// TextRaw carries the text when it is not valid UTF-8 (a JSON replay file would alter it).
+	TextRaw []byte `json:",omitempty"`
 	// Kind: "valid" (must decode to Want), "mutated" (single mutation of an encoder-shaped text),
 	// "json" (arbitrary JSON value), "bytes" (arbitrary bytes)
 	Kind     string
@@ -377,7 +379,10 @@ func genText(t *rapid.T) TextCase {
 		return TextCase{Text: v, Kind: "json", MustFail: true}
 	default:
 		b := rapid.SliceOfN(rapid.Byte(), 0, 64).Draw(t, "bytes")
-		return TextCase{Text: string(b), Kind: "bytes"}
+		if utf8.Valid(b) {
+			return TextCase{Text: string(b), Kind: "bytes"}
+		}
+		return TextCase{TextRaw: b, Kind: "bytes"}
 	}
 }
 
@@ -437,6 +442,9 @@ func checkText(text string) (accepted bool, err error) {
 }
 
 func execText(c TextCase) (vh.Outcome, error) {
+	if c.TextRaw != nil {
+		c.Text = string(c.TextRaw)
+	}
 	out := vh.Outcome{NonTrivial: c.Kind == "mutated", Classes: []string{"kind=" + c.Kind}}
 	if c.Mutation != "" {
 		out.Classes = append(out.Classes, "mut="+strings.SplitN(c.Mutation, ":", 2)[0])
